@@ -289,6 +289,9 @@ pub struct World {
     /// multi-homed nodes: the address of node n in a second network; a datagram to a second-network address arrives
     /// with the sender's second-network address as source
     pub second_addr: BTreeMap<usize, SocketAddr>,
+    /// nodes whose control traffic (everything not caused by an interface read: announcements, keepalives, rotation
+    /// and handshake messages) is lost on the way out while their payload still gets through
+    pub control_lost: BTreeSet<usize>,
     /// node id of every incarnation -> the peer timeout it was configured with (and therefore advertises)
     pub advertised_timeout: BTreeMap<[u8; 16], u16>,
     /// node behind a translating NAT with a port forward: everybody else sees (and reaches) it as this address
@@ -355,6 +358,7 @@ impl World {
             aliases: BTreeMap::new(),
             alias_src: BTreeMap::new(),
             second_addr: BTreeMap::new(),
+            control_lost: BTreeSet::new(),
             advertised_timeout: BTreeMap::new(),
             public_addr: BTreeMap::new(),
             wire: vec![],
@@ -501,6 +505,23 @@ impl World {
         let public = mapped_addr(public);
         self.public_addr.insert(n, public);
         self.aliases.insert(public, n);
+    }
+
+    /// uplink of node n down / up: while down every send of the node fails with ENETUNREACH
+    pub fn set_uplink_down(&mut self, n: usize, down: bool) {
+        if let Some(c) = self.nodes[n].cloud.as_mut() {
+            with_cloud!(c, c => { c.verif_socket().down = down; });
+        }
+        if down {
+            self.count("fault_uplink_down");
+        }
+    }
+
+    pub fn uplink_is_down(&mut self, n: usize) -> bool {
+        match self.nodes[n].cloud.as_mut() {
+            Some(c) => with_cloud!(c, c => c.verif_socket().down),
+            None => false,
+        }
     }
 
     /// gives node n a second address (second network interface)
@@ -744,7 +765,7 @@ impl World {
     fn decide_send_fault(&mut self, n: usize) {
         if self.net.enabled && self.net.send_fault_pm > 0 && self.ch.chance("send_fault", self.net.send_fault_pm) {
             let nth = 1 + self.ch.choose("send_fault_nth", 4);
-            let kind = *self.ch.pick("send_fault_kind", &[SendFault::WouldBlock, SendFault::NetUnreach, SendFault::Perm, SendFault::Short]);
+            let kind = *self.ch.pick("send_fault_kind", &[SendFault::WouldBlock, SendFault::NetUnreach, SendFault::Perm, SendFault::Short, SendFault::Interrupted]);
             if let Some(c) = self.nodes[n].cloud.as_mut() {
                 with_cloud!(c, c => {
                     let s = c.verif_socket();
@@ -817,8 +838,21 @@ impl World {
             step.writes += 1;
         }
         let src = self.nodes[n].addr;
-        for (dst, data) in out {
-            let id = self.transmit(n, src, dst, data, cause);
+        // Per-datagram cause for nodes whose control traffic is lost: the event of a step is handled first, so in a step
+        // caused by an interface read the first datagram is the payload (when the lookup gave a next hop); whatever
+        // follows was emitted by the housekeeping that ran in the same step.
+        let payload_datagrams = if self.control_lost.contains(&n) && matches!(cause, Cause::Dev(_)) {
+            if step.probes.iter().any(|e| matches!(e, crate::verif::Event::Lookup { hop: Some(_), .. })) {
+                1
+            } else {
+                0
+            }
+        } else {
+            usize::MAX
+        };
+        for (idx, (dst, data)) in out.into_iter().enumerate() {
+            let c = if idx >= payload_datagrams { Cause::Tick } else { cause };
+            let id = self.transmit(n, src, dst, data, c);
             step.sent.push(id);
         }
     }
@@ -857,6 +891,11 @@ impl World {
         if self.nodes[n].cfg.nat {
             let exp = self.now_ms + 300_000;
             self.nodes[n].nat_table.insert(dst, exp);
+        }
+        if self.control_lost.contains(&n) && !matches!(cause, Cause::Dev(_)) {
+            self.wire[id].dropped = Some("control-lost");
+            self.count("fault_control_datagram_lost");
+            return id;
         }
         // partition
         if let Some(m) = self.node_by_addr(dst) {
